@@ -111,6 +111,14 @@ class Runner:
             if (b not in act.structures or (b, Pin(f"sa{tag}")) not in act.connections_list
                     or len(sub.structures) != 1 or sub.connections):
                 self.misdirected = True
+            # printing the hierarchy (to a limited depth) is a query: the stack of active solvers stays what it is
+            depth0 = list(lk.sol_list)
+            import contextlib, io
+            with contextlib.redirect_stdout(io.StringIO()):
+                act.inspect(max_depth=1)
+                act.inspect()
+            if list(lk.sol_list) != depth0:
+                self.misdirected = True
         elif name == "put":
             # ... or the solver of an ENCLOSING, still open with-block is placed into the innermost one (legal: no cycle
             # as long as the inner one is not inside the outer one): the placement belongs to the innermost solver
